@@ -504,6 +504,36 @@ class Check(PropertyCheck):
 
     def setup(self, tier):
         self.parallel = tier == "thorough"
+        self.known_selftest()
+
+    def known_selftest(self):
+        """C08 has no recorded finding: nothing may ever be excused; and the oracle's clauses, on frozen observations
+        (independent of the tree under test), must fire where they should"""
+        case = {"mode": "regular", "client": "h1", "fates": ["ok"], "steps": []}
+        ok = {"rid": 2, "cid": 0, "addr": ["b.example", 8001], "tls": False, "via": "-", "transport": "tcp", "open": True,
+              "error": False, "failed_before": False, "opened_to": [["b.example", 8001], False, "-"]}
+        dest = {"2": ["b.example", 8001, "http", "-", "tcp"]}
+        mk = lambda r, pokes=(): {"crash": [], "routed": [r], "dest": dest, "pokes": list(pokes)}
+        T = [
+            (mk(ok), []),
+            (mk(dict(ok, addr=["a.example", 8001])), ["misrouted:"]),
+            (mk(dict(ok, tls=True)), ["misrouted:"]),
+            # the label matches, the socket does not (a re-labelled live connection)
+            (mk(dict(ok, opened_to=[["a.example", 8001], False, "-"])), ["misrouted (socket):"]),
+            (mk(dict(ok, opened_to=[["b.example", 8001], False, "2:1"])), ["misrouted (socket):"]),
+            (mk(dict(ok, error=True)), ["failed connection"]),
+            (mk(dict(ok, failed_before=True)), ["failed connection"]),
+            (mk(ok, [{"open": True, "changed": True, "raised": False, "kept": False, "took": True}]), ["address/via of an open"]),
+            (mk(ok, [{"open": True, "changed": True, "raised": True, "kept": True, "took": False}]), []),
+            (mk(ok, [{"open": False, "changed": True, "raised": False, "kept": False, "took": True}]), []),
+        ]
+        for obs, want in T:
+            fs = self.oracle(case, obs)
+            if len(fs) != len(want) or any(not f.startswith(w) for f, w in zip(fs, want)):
+                raise AssertionError(f"known_selftest: oracle gave {fs}, expected {want}")
+            for f in fs:
+                if self.known(case, obs, f) is not None:
+                    raise AssertionError("known_selftest: C08 has no finding, yet known() excused " + f)
 
     # ---- generator --------------------------------------------------------------------------------------------
     @staticmethod
